@@ -29,19 +29,19 @@ func init() {
 		"Decides on every path: accept order (capacity test → Save=nil → enqueue → acceptN++; error ⇒ nothing enqueued/counted/written; first write only without backlog), resend (ascending from the acknowledgement counter, Load=nil and found → write=nil per iteration, DUP condition, both resends nil before the connection is published, under both sequence tokens and the write token), acknowledgement handlers (Delete/Save=nil before counter++ before close/forward; error returns carry no effect), every stream/handler/Persistence error in readSlices resets the connection; token balance and lock order; who may write the counters, delete records and close exchanges. Not decided: that the broker is eventually reached; payload bytes on the wire.",
 		asmCommon)
 	prop("C02", "restart resumes exactly the unacknowledged set", "§4 C02",
-		[]string{"ADP-1", "ADP-4", "ADP-7", "ADP-8", "COD-1", "COD-8", "COD-9", "ORD-1", "ORD-3", "ORD-4", "OWN-8"},
+		[]string{"ADP-1", "ADP-4", "ADP-7", "ADP-8", "COD-1", "COD-8", "COD-9", "ORD-1", "ORD-3", "ORD-4", "OWN-8", "ADP-9", "COD-10"},
 		"path rules and sibling/table comparison on AdoptSession, cleanSequence and the record codec",
 		lvlCommon, noteCommon,
 		"Decides: the adopted client continues the storage sequence (seqNo seeded from the decoded maximum before newClient); counters and placeholders are computed from cleanSequence results on every path; the three wrap-around adjustments add publishIDMask+1 and compare with the start of their range; cleanSequence restarts at the first pair after a dropped prefix; record encode/decode tables agree; AdoptSession classifies every key space the Save sites use; PUBREL is saved before it is counted and is kept for retry only after a durable Save. Not decided: equality of the recovered set with accepted-minus-acknowledged for arbitrary histories; counter arithmetic values.",
 		asmCommon)
 	prop("C03", "exactly-once publish", "§4 C03",
-		[]string{"ORD-3", "ORD-4", "ORD-2", "ORD-1", "OWN-4", "OWN-9", "COD-1", "COD-12", "COD-3", "ADP-1", "ADP-8"},
+		[]string{"ORD-3", "ORD-4", "ORD-2", "ORD-1", "OWN-4", "OWN-9", "COD-1", "COD-12", "COD-3", "ADP-1", "ADP-8", "ADP-9"},
 		"path-sensitive must-pass-through; constant evaluation of identifier spaces; guard dominance",
 		lvlCommon, noteCommon,
 		"Decides: onPUBREC saves PUBREL (nil) before Received++ before the write, onPUBCOMP deletes (nil) before Completed++ before closing the exchange, in-order and depth guards dominate both; only submitPersisted and onPUBREC store under an exactly-once key; resend transmits what is stored with DUP only on PUBLISH; queue capacity ≤ identifier space and the ErrMax test dominates Save, so no identifier is reused before PUBCOMP; storage order survives adoption. Not decided: the broker-side consequence (forwards exactly once).",
 		asmCommon)
 	prop("C04", "exactly-once reception", "§4 C04",
-		[]string{"ORD-4", "ORD-6", "COD-11", "OWN-3"},
+		[]string{"ORD-4", "ORD-6", "COD-11", "OWN-3", "ORD-11"},
 		"path-sensitive must-pass-through over onPUBLISH, readSlices, onPUBREL; key-expression agreement",
 		lvlCommon, noteCommon,
 		"Decides: a QoS 2 delivery lies behind a marker Load that returned (nil,nil); every delivered QoS 1/2 message leaves the matching acknowledgement with the identifier parsed in the same call; a recognised duplicate is answered with PUBREC and not delivered; no error return leaves an acknowledgement queued (except the retried PUBREC of a duplicate); the flush saves the marker (nil) before PUBREC and truncates only behind a nil write; the read loop continues only with pendingAck empty; onPUBREL deletes (nil) before PUBCOMP regardless of the marker's existence; the three marker key expressions agree; toOffline keeps pendingAck. Not decided: once-per-cycle delivery over histories with restarts (needs marker contents).",
@@ -53,14 +53,14 @@ func init() {
 		"Decides: the sequence token is held across Save, enqueue and first write on every path (released only by the deferred unlock); sequence tokens are acquired before the write token in submitPersisted and connect (acyclic order graph); a backlog forbids an overtaking write; resend ascends from the oldest unacknowledged with DUP iff seqNo<submitN and PUBLISH; nobody else sets DUP or writes to the wire. Not decided: observed wire order under real schedules (follows from the above only given Go's channel semantics).",
 		asmCommon)
 	prop("C06", "inbound bytes exact under any fragmentation", "§4 C06",
-		[]string{"ORD-11", "ORD-12", "ORD-13", "ORD-14", "ORD-6"},
+		[]string{"ORD-11", "ORD-12", "ORD-13", "ORD-14", "ORD-6", "COD-4"},
 		"typestate of the peeked packet over all paths of readSlices; argument-shape rule for unchecked Discard; loop-carried-remainder rule",
 		"A narrow structural claim (level 'other'): each peeked packet is skipped exactly once and never read stale, a parked BigMessage is served or cleared on every path, every error-ignoring Discard is provably within the buffer, and discard's retry resumes with the remainder. Byte equality of topic/payload per fragmentation is a run-time value claim and is not decided.",
 		noteCommon,
 		"Decides: typestate nil/pending/consumed of c.peek through readSlices (no double skip, peekPacket always entered with c.peek==nil so the progress baseline is not stale, back edges with c.peek==nil, delivered slices belong to a pending packet); a BigMessage set by errors.As is served, cleared or dropped by toOffline on every path; the four error-ignoring Discard calls have arguments of the form len(peek) or len(peek)−len(suffix); discard and writeTo carry the remainder around the retry edge, which lies behind count≠0 ∧ Timeout(). Not decided: byte equality of returned slices, Size arithmetic beyond the Discard form, behaviour per fragmentation.",
 		asmCommon)
 	prop("C07", "acknowledgements only after ownership", "§4 C07",
-		[]string{"ORD-4", "ORD-6", "OWN-3"},
+		[]string{"ORD-4", "ORD-6", "OWN-3", "ORD-11"},
 		"path-sensitive must-pass-through; who-may-write rule for pendingAck",
 		lvlCommon, noteCommon,
 		"Decides: onPUBLISH never writes to the wire while delivering and only queues the acknowledgement (matching type, identifier parsed in the same call); no error return leaves one queued for a message that was not returned; the flush dominates every peekPacket; pendingAck is truncated only behind a nil write and written only by its four owners; toOffline keeps it so that it is sent on the new connection. Not decided: timing relative to the application's next call is implied by the flush being at function entry, not observed.",
@@ -72,10 +72,10 @@ func init() {
 		"Decides: every wire write happens in writeTo/writeBuffersTo, called only by holders of the write token (or owners of an unpublished connection); after a failed or unchecked wire call the connection is never put back into writeSem; retry loops send exactly the unsent suffix (writeTo: p[n:]; writeBuffersTo: the receiver WriteTo already consumed is never re-sliced) and only after progress and a timeout; success is returned only behind a nil I/O result; DISCONNECT is the last write before Close; the connection is published only after both resends returned nil. Not decided: the io.Writer contract of the user's net.Conn.",
 		asmCommon)
 	prop("C09", "emitted packets decode to the request; invalid input denied without trace", "§4 C09",
-		[]string{"ORD-10", "COD-5", "COD-6", "COD-7", "ERR-4", "COD-1"},
+		[]string{"ORD-10", "COD-5", "COD-6", "COD-7", "COD-13", "ERR-4", "COD-1"},
 		"symbolic linear evaluation of size versus appended bytes per option path and loop iteration; dominance of validators; table checks",
 		lvlCommon, noteCommon,
-		"Decides: the four remaining-length encoders are structurally identical and encode exactly the value that was tested against packetMax; on every option combination and per loop iteration the remaining length equals the number of bytes appended after it (symbolic linear forms); every 16-bit length prefix is emitted for a string some validator bounds to 65,535; validators dominate the first side effect of every request method and constructor and no deny error is returned after one; validator sentinels are in denyErrs; identifier spaces are disjoint, non-zero and 16-bit. Not decided: full decode round-trip for all inputs, UTF-8 classification (utf8.ValidString trusted), that no valid argument is denied.",
+		"Decides: the four remaining-length encoders are structurally identical and encode exactly the value that was tested against packetMax; on every option combination and per loop iteration the remaining length equals the number of bytes appended after it (symbolic linear forms); every 16-bit length prefix is emitted for a string some validator bounds to 65,535; the CONNECT flag bits equal, on every option path, the set of optional fields emitted (Will QoS/Retain only with the Will Flag, Password only with User Name, bit 0 clear); stringCheck accepts only behind len ≤ stringMax judged at its boundary values, valid UTF-8 and a NUL search whose not-found result is told apart from position 0, topicCheck only non-empty strings that passed stringCheck; validators dominate the first side effect of every request method and constructor and no deny error is returned after one; validator sentinels are in denyErrs; identifier spaces are disjoint, non-zero and 16-bit. Not decided: full decode round-trip for all inputs, UTF-8 classification (utf8.ValidString trusted), that no valid argument is denied.",
 		asmCommon)
 	prop("C10", "the read routine never wedges", "§4 C10",
 		[]string{"RCH-1", "OWN-7", "TOK-1", "TOK-4", "TOK-5", "TOK-6", "TOK-7", "TOK-11", "ORD-5", "ORD-6", "ORD-7", "ORD-13", "ORD-14", "ERR-5"},
@@ -114,13 +114,13 @@ func init() {
 		"Decides: encodeValue and decodeValue agree on hash constructor, byte orders, offsets (8/4/12) and hashed extent, the trailer buffer is per call, the length test dominates all slicing and acceptance requires both tests; the rugged Load returns a value only after a nil decode and reports absence only for a nil delegate result; every Persistence the client uses is rugged or volatile; AdoptSession decodes every listed key and deletes, warns and skips corrupt ones; the client identifier comes from a checked Load. Not decided: that FNV-1a detects every single-byte change (a fact about hash/fnv, trusted); multi-byte damage.",
 		asmCommon)
 	prop("C16", "a damaged Persistence never bricks the session", "§4 C16",
-		[]string{"ADP-1", "ADP-2", "ADP-3", "ADP-4", "ADP-5", "ADP-6", "ADP-7", "ADP-8", "ORD-2", "ORD-9"},
+		[]string{"ADP-1", "ADP-2", "ADP-3", "ADP-4", "ADP-5", "ADP-6", "ADP-7", "ADP-8", "ORD-2", "ORD-9", "COD-10"},
 		"path rules and structural checks on AdoptSession and cleanSequence",
 		lvlCommon, noteCommon,
 		"Decides: every branch that warns also abandons what it names (corrupt record: delete+warn+continue before classification; PUBREL gap: list emptied; cleanSequence: prefix dropped and scan restarted at the first pair); every listed key is integrity checked; counters and placeholders come from cleanSequence results; capacity checks precede the placeholders and treat negative limits as default; fatal results stem only from Config, List, Load and the Max checks; wrap tests compare with the start of their range; resend needs the contiguity these establish. Not decided: which records survive a given damage pattern; a damaged client-identifier record.",
 		asmCommon)
 	prop("C17", "identifiers unique and bounded; excess gets ErrMax", "§4 C17",
-		[]string{"COD-1", "COD-12", "ORD-1", "ORD-3", "TOK-12", "ADP-5", "ADP-7"},
+		[]string{"COD-1", "COD-12", "ORD-1", "ORD-3", "TOK-12", "ADP-5", "ADP-7", "ADP-9"},
 		"constant evaluation; dominance and path rules",
 		lvlCommon, noteCommon,
 		"Decides: the four identifier spaces are pairwise disjoint, exclude zero and fit 16 bits; both queue capacities are clamped to ≤ publishIDMask+1 on every path of newClient; the ErrMax test dominates Save and the non-blocking enqueue, and acceptN advances exactly once per accepted message; a queue slot is released only behind a nil Delete; startTx tests the window and skips identifiers still in use, under the mutex; AdoptSession's wrap adjustments and Max checks. Not decided: uniqueness as a statement over histories (follows from bounded window + modulus only with counter arithmetic, not checked numerically).",
